@@ -1010,7 +1010,7 @@ Qed.
 
 Lemma event_steps_reach fx s0 s e : reach fx s0 s -> forall x, In x (event_steps fx s e) -> reach fx s0 x.
 Proof.
-  intros Hr x Hx. destruct e as [m1| |c1 v1|cc1|c1 v1|c1|c1|k1]; cbn [event_steps] in Hx.
+  intros Hr x Hx. destruct e as [m1| |c1 v1|cc1|c1 v1|c1|c1|k1| |]; cbn [event_steps] in Hx.
   1-2, 5-6: eapply steps_reach; eauto.
   - destruct (nth_error (wsout (nt s)) (crecv (nt s))) as [[m2|c2]|]; try contradiction.
     destruct (omsg_eqb m2 (c1, v1)); [|contradiction]. eapply steps_reach; eauto.
@@ -1020,6 +1020,11 @@ Proof.
     destruct (c2 =? c1); [|contradiction]. eapply steps_reach; eauto.
   - destruct (nth_error (reqs (pc s)) k1) as [r|]; [|contradiction].
     destruct (stp r); [|contradiction]. destruct (crashed s); [contradiction|].
+    destruct Hx as [<-|[]]. exact Hr.
+  - destruct (rd (wk s)); try contradiction.
+    match type of Hx with In _ (if ?b then _ else _) => destruct b end; [|contradiction].
+    destruct Hx as [<-|[]]. exact Hr.
+  - destruct (wr (wk s)); try contradiction. destruct (crashed s); [contradiction|].
     destruct Hx as [<-|[]]. exact Hr.
 Qed.
 
